@@ -4,10 +4,10 @@ usage: seed_all.py [<ID>/<name> ...]   (default: all whose meta.json has no 'off
 The properties to run are taken from meta.json['run_ids'] or default to the mutant's property."""
 import json, os, subprocess, sys, time, glob
 sys.path.insert(0, os.path.dirname(__file__))
-from mutant import detect
+from mutant import detect, ROOT
 def main():
     sel = sys.argv[1:]
-    dirs = sorted(glob.glob('/verif/seeded/*/*/'))
+    dirs = sorted(glob.glob(ROOT + '/seeded/*/*/'))
     for d in dirs:
         rel = '/'.join(d.rstrip('/').split('/')[-2:])
         if sel and rel not in sel: continue
